@@ -846,8 +846,8 @@ def while_trip_count(ip, st, fr, H, var, region):
     s1 = stops[0]
     if len(stops) == 1:
         conds = [c for c in s1.conds[c0:]]
-        if len(conds) != 1 or conds[0][0] not in ("ge", "lt"):
-            raise Undecided("loop condition of %s is not a single linear comparison: %r" % (fr.body["path"], conds))
+        if not conds or any(c[0] not in ("ge", "lt") for c in conds):
+            raise Undecided("loop condition of %s is not a conjunction of linear comparisons: %r" % (fr.body["path"], conds))
     else:
         # branches inside the body: every way around starts with the same loop condition and the
         # ways differ right after it (a compound loop condition would give a longer common prefix)
@@ -857,11 +857,13 @@ def while_trip_count(ip, st, fr, H, var, region):
         k = 1
         while all(len(x) > k for x in cl) and all(x[k] == cl[0][k] for x in cl):
             k += 1
-        if k != 1:
-            raise Undecided("loop at bb%d of %s: compound loop condition" % (H, fr.body["path"]))
-        conds = [cl[0][0]]
-    c = conds[0]
-    G = c[1] if c[0] == "ge" else (-c[1] - 1)
+        conds = list(cl[0][:k])
+        if any(c[0] not in ("ge", "lt") for c in conds):
+            raise Undecided("loop at bb%d of %s: loop condition is not a conjunction of linear comparisons" % (H, fr.body["path"]))
+    Gs = [(c[1] if c[0] == "ge" else (-c[1] - 1)) for c in conds]
+    G = Gs[0]
+    for g_ in Gs[1:]:
+        G = G + g_      # only its symbols are used below (which variables the condition mentions)
     # strides
     v = Lin.sym(var)
     env = {}
@@ -891,7 +893,21 @@ def while_trip_count(ip, st, fr, H, var, region):
         steps[(loc, which)] = (orig, step)
     if set(G.symbols()) & (set(syms) - set(env)):
         raise Undecided("loop condition mentions a non-affine variable")
-    Gj = G.subst(env)
+    Gjs = [g_.subst(env) for g_ in Gs]
+    Gj = Gjs[0]
+    if len(Gjs) > 1:
+        # a conjunction: the loop runs while the FIRST failing conjunct holds; usable when one conjunct
+        # implies all the others at every iteration index (slices consumed in lockstep)
+        Gj = None
+        for cand in Gjs:
+            Fc = st.F.copy()
+            Fc.add_ge(v)
+            Fc.add_ge(cand)
+            if all(o is cand or Fc.prove_ge(o) for o in Gjs):
+                Gj = cand
+                break
+        if Gj is None:
+            raise Undecided("compound loop condition of %s: no conjunct implies the others" % fr.body["path"])
     G0 = Gj.subst({var: ZERO})
     G1 = Gj.subst({var: ONE})
     B = G0 - G1
@@ -920,6 +936,9 @@ def while_trip_count(ip, st, fr, H, var, region):
             return (G0 + 1, affine)
         if F.prove_ge(-G0 - 1):
             return None
+        if F.prove_ge(G0 + 1):
+            # the count G0 + 1 is non-negative, possibly zero: no case split (as for iterator loops)
+            return (G0 + 1, affine)
         s_in = st.fork()
         s_in.assume(("ge", G0))
         s_out = st
